@@ -316,6 +316,11 @@ def main(chk):
         tasks.append((o1_decoder, (prog, 'QueryRouter::parse', n)))
     for n in ((0, 1, 2, 5, 7, 10) if not chk.thorough else range(0, 15)):
         tasks.append((o1_startup_decoder, (prog, n)))
+    # shared state a hostile message can reach: the key under which a Parse enters the POOL-WIDE statement cache (all clients of the pool) must
+    # tell a malformed Parse (arbitrary non-positive parameter count, no types) from every valid statement
+    import checks.c08 as c08mod
+    for qa, qb in ((1, 1), (2, 2)):
+        tasks.append((c08mod.o2_hash, (prog, qa, 0, qb, 0, True, 'C11')))
     prog_off = chk.program('off')
     for pr, fl in ((prog, 'on'), (prog_off, 'off')):
         tasks.append((o1_read_message, (pr, -6, 3, 2, fl)))
